@@ -16,17 +16,39 @@ def compileOp (level prog : String) : String :=
   | .error e => "err " ++ (match e with | .encErr n => toString n | _ => "?")
   | .ok pr => "ok " ++ encText (emit pr).toList
 
-/-- the IR semantics of the compiled program (`Prog.run`): text written and status after at most `k` loop iterations -/
+/-- cheap size measure: bits of the top elements of the listed stacks (results of operations land on top) -/
+def topBits (idx : List Nat) (s : St HyN.NumI) : Nat :=
+  idx.foldl (fun a i => match s.stacks i with
+    | x :: _ => a + x.up.natAbs.log2 + x.down.natAbs.log2
+    | [] => a) 0
+
+/-- `irRunN` with a guard: stop (as "still running") when the values explode -/
+def irLoop (blocks : List (List Cmd)) (idx : List Nat) : Nat → Cfg HyN.NumI → Cfg HyN.NumI × Status
+  | 0, c => (c, if c.loc < blocks.length then .running else .ended)
+  | k+1, c =>
+    if c.loc ≥ blocks.length then (c, .ended)
+    else match irStep blocks c with
+      | .error e => (⟨(c.m.1, e.2), c.loc⟩, .stopped e.1)
+      | .ok c'' =>
+        let c' : Cfg HyN.NumI := ⟨(collapse idx c''.m.1, c''.m.2), c''.loc⟩
+        if topBits idx c'.m.1 > 200000 then (c', .running) else irLoop blocks idx k c'
+
+/-- the IR semantics of the compiled program (`Prog.entry`, then the loop): text written and status after at most `k` loop iterations -/
 def irRunOp (level prog stdin k : String) : String :=
   match compileProg level.toNat! (decProg prog) with
   | .error e => "err " ++ (match e with | .encErr n => toString n | _ => "?")
   | .ok pr =>
-    match pr.run (decText stdin) k.toNat! with
-    | none => "PANIC"
-    | some (w, st) =>
+    let fin (w : World) (st : Status) : String :=
       s!"O={encText w.out} E={encText w.err} END " ++ (match st with
         | .running => "cut"
         | .ended => "ok"
         | .stopped e => stopStr e)
+    if !pr.hasCode then fin ⟨[], pr.out, pr.err⟩ .ended
+    else match pr.entry (decText stdin) with
+      | none => "PANIC"
+      | some c =>
+        let idx := dedupSorted ((List.range (pr.size + 4)) ++ candidates pr.blocks.flatten)
+        let r := irLoop pr.blocks idx k.toNat! c
+        fin r.1.m.2 r.2
 
 end Drv
